@@ -192,3 +192,115 @@ def write_gvf_lines(path, lines, parser, source):
         f.write(GVF_HEAD.format(parser=parser, source=source))
         for l in lines:
             f.write(l + '\n')
+
+
+# ---- alternative-splicing records (Insertion / Deletion / Substitution, gene coordinates) ------------------------
+
+AS_HEAD = GVF_HEAD.replace('#CHROM\tPOS', '##INFO=<ID=START,Number=1,Type=Integer,Description="Start Position">\n'
+                           '##INFO=<ID=END,Number=1,Type=Integer,Description="End Position">\n'
+                           '##INFO=<ID=DONOR_START,Number=1,Type=Integer,Description="Donor Start Position">\n'
+                           '##INFO=<ID=DONOR_END,Number=1,Type=Integer,Description="Donor End Position">\n#CHROM\tPOS')
+
+
+def gene_exons(ref, t):
+    """exons of t as gene-coordinate intervals in transcript order"""
+    g = ref.genes[t.gene]
+    out = []
+    for s, e in (t.exons if t.strand == 1 else reversed(t.exons)):
+        a = g.g2gene(s) if t.strand == 1 else g.g2gene(e - 1)
+        out.append((a, a + (e - s)))
+    return out
+
+
+def as_records(r, ref, t, n=1, min_tx_pos=3):
+    """Random alternative-splicing records on transcript t.  Each item: dict(line=GVF line, var=the record as the
+    replace-[start,end)-by-alt variant the oracle uses (transcript coordinates, callVariant's internal anchoring),
+    meta=the record in gene coordinates for the spec's Denote)."""
+    g = ref.genes[t.gene]
+    chrom = ref.chroms[g.chrom]
+    gseq = g.seq(chrom)
+    seq = t.seq(chrom)
+    ex = gene_exons(ref, t)
+    nx = len(ex)
+    offs = [0]
+    for a, b in ex:
+        offs.append(offs[-1] + (b - a))
+
+    def txpos(gp):
+        for k, (a, b) in enumerate(ex):
+            if a <= gp < b:
+                return offs[k] + gp - a
+        return None
+    out, used = [], []
+    tries = 0
+    while len(out) < n and tries < 40:
+        tries += 1
+        kind = r.choice(['del_exon', 'del_end', 'del_start', 'ins_full', 'ins_part', 'ins_part', 'sub_exon'])
+        rec = None
+        if kind == 'del_exon' and nx >= 3:
+            k = r.randrange(1, nx - 1)
+            rec = dict(kind='Deletion', start=ex[k][0], end=ex[k][1], dstart=0, dend=0, id=f'SE_{ex[k][0]}-{ex[k][1]}')
+        elif kind == 'del_end' and nx >= 2:
+            k = r.randrange(0, nx - 1)
+            d = r.randrange(1, max(2, min(7, ex[k][1] - ex[k][0] - 2)))
+            rec = dict(kind='Deletion', start=ex[k][1] - d, end=ex[k][1], dstart=0, dend=0, id=f'A5SS_{ex[k][1] - d}-{ex[k][1]}')
+        elif kind == 'del_start' and nx >= 2:
+            k = r.randrange(1, nx)
+            d = r.randrange(1, max(2, min(7, ex[k][1] - ex[k][0] - 2)))
+            rec = dict(kind='Deletion', start=ex[k][0], end=ex[k][0] + d, dstart=0, dend=0, id=f'A3SS_{ex[k][0]}-{ex[k][0] + d}')
+        elif kind in ('ins_full', 'ins_part') and nx >= 2:
+            k = r.randrange(0, nx - 1)
+            ia, ib = ex[k][1], ex[k + 1][0]
+            if ib - ia < 3:
+                continue
+            if kind == 'ins_full':
+                da, db = ia, ib
+            else:
+                da = r.randrange(ia, ib - 1); db = r.randrange(da + 1, ib + 1)
+            rec = dict(kind='Insertion', start=ex[k][1] - 1, end=ex[k][1], dstart=da, dend=db, id=f'RI_{da}-{db}')
+        elif kind == 'sub_exon' and nx >= 3:
+            k = r.randrange(1, nx - 1)
+            ia, ib = (ex[k][1], ex[k + 1][0]) if r.random() < 0.5 else (ex[k - 1][1], ex[k][0])
+            if ib - ia < 3:
+                continue
+            da = r.randrange(ia, ib - 1); db = r.randrange(da + 1, ib + 1)
+            rec = dict(kind='Substitution', start=ex[k][0], end=ex[k][1], dstart=da, dend=db, id=f'MXE_{ex[k][0]}-{ex[k][1]}-{da}-{db}')
+        if rec is None:
+            continue
+        i, j = txpos(rec['start']), txpos(rec['end'] - 1)
+        if i is None or j is None:
+            continue
+        donor = gseq[rec['dstart']:rec['dend']]
+        if rec['kind'] == 'Deletion':
+            if i - 1 < min_tx_pos or j + 1 >= len(seq):
+                continue
+            var = dict(start=i - 1, end=j + 1, ref=seq[i - 1:j + 1], alt=seq[i - 1])
+        elif rec['kind'] == 'Insertion':
+            if i < min_tx_pos:
+                continue
+            var = dict(start=i, end=i + 1, ref=seq[i], alt=seq[i] + donor)
+        else:
+            if i < min_tx_pos or j + 1 >= len(seq):
+                continue
+            var = dict(start=i, end=j + 1, ref=seq[i:j + 1], alt=donor)
+        if any(var['start'] <= u['end'] and u['start'] <= var['end'] for u in used) or any(rec['id'] == o['meta']['id'] for o in out):
+            continue
+        used.append(var)
+        refbase = gseq[rec['start']]
+        info = f"TRANSCRIPT_ID={t.id};"
+        if rec['kind'] != 'Insertion':
+            info += f"START={rec['start'] + 1};END={rec['end']};"
+        if rec['kind'] != 'Deletion':
+            info += f"DONOR_GENE_ID={t.gene};DONOR_START={rec['dstart'] + 1};DONOR_END={rec['dend']};"
+        info += f"GENE_SYMBOL={g.name};GENOMIC_POSITION=chr1:1-2"
+        alt = {'Deletion': '<DEL>', 'Insertion': '<INS>', 'Substitution': '<SUB>'}[rec['kind']]
+        line = '\t'.join([t.gene, str(rec['start'] + 1), rec['id'], refbase, alt, '.', '.', info])
+        out.append(dict(line=line, var=dict(var, id=rec['id'], tx=t.id, type=rec['kind']),
+                        meta=dict(rec, ref=[refbase]), gpos=rec['start']))
+    return out
+
+
+def tx_struct(ref, t):
+    g = ref.genes[t.gene]
+    return dict(chrom=list(ref.chroms[g.chrom]), gene=dict(start=g.start, end=g.end, strand=g.strand),
+                tx=dict(strand=t.strand, exons=[list(e) for e in t.exons]))
